@@ -20,7 +20,7 @@ def run(report):
     full = report.tier != 'quick'
 
     def small():
-        obs, stats = S.small_grammar_obligations(max_size, full=full)
+        obs, stats = S.small_grammar_obligations(max_size, full=full, also_size4=full)
         return [(obs, stats)]
     from props.common import _call_with_deadline
     import os
